@@ -61,6 +61,10 @@ pub fn evaluate_pair(case: &PairCase, run: &PairRun, focus: Focus) -> Outcome {
         &C19Ctx { tap: &tap, events: &run.events, stats: &run.stats, settled, client_handles_gone: settled && case.drop_send_request_at_end, c2s_shutdown, reset_max, orphans: &run.orphans },
         &mut out,
     );
+    // C03: no receive window stays exhausted while the application holds nothing
+    for side in [Side::Client, Side::Server] {
+        crate::eng_raw2::check_exhausted_side(side, case, run, &tap, &mut out);
+    }
     check_c05(
         &C05Ctx { tap: &tap, av: &av, events: &run.events, h2_sides: &sides, advertised: [case.ccfg.max_concurrent, case.scfg.max_concurrent], check_recycling: true },
         &mut out,
